@@ -152,6 +152,21 @@ func extractReads(P *Prog, A *Aff, fn *ssa.Function, buf ssa.Value) []fieldRead 
 		}
 		return a.Block().Index < b.Block().Index
 	})
+	// when every read is at a constant position the order of the statements is
+	// immaterial (no cursor links them): compare them with the layout in stream order
+	allConst := len(out) > 0
+	for _, r := range out {
+		if _, isC := r.posLin.IsConst(); !isC || r.header != nil {
+			allConst = false
+		}
+	}
+	if allConst {
+		sort.SliceStable(out, func(i, j int) bool {
+			a, _ := out[i].posLin.IsConst()
+			b, _ := out[j].posLin.IsConst()
+			return a < b
+		})
+	}
 	return out
 }
 
